@@ -2,7 +2,7 @@ SPEC = {
     'id': 'C16',
     'harness': 'hC16',
     'coq_dir': 'C16',
-    'claimed': False,
+    'claimed': True,
     'theorems': ['C16_decode_encode', 'C16_encode_injective', 'C16_hash_ignores_sig_and_header', 'C16_hash_binds',
                  'C16_fullhash_binds', 'C16_clone_preserves_hash_fullhash', 'C16_sign_then_verify',
                  'C16_altered_fails_partial', 'C16_altered_fails_refuted', 'C16_disabled_fails', 'C16_unsigned_fails'],
